@@ -346,6 +346,8 @@ pub trait Subj: BitVector + Clone + Debug + Hash + Ord + Extend<Bit> + FromItera
     fn convert(&self, tid: u8, by_val: bool) -> Option<Result<AnyBv, ConvertionError>>;
     fn to_uint(&self, w: u8, by_val: bool) -> Result<u128, ConvertionError>;
     fn from_uint(w: u8, val: u128) -> Result<Self, ConvertionError>;
+    /// conversion from a slice of native integers of width index w (element 0 least significant)
+    fn from_slice(w: u8, vals: &[u128]) -> Result<Self, ConvertionError>;
     fn raw_roundtrip(&self) -> Option<Self>;
     fn probe(&self) -> Probe;
     fn cmp_any(&self, other: &AnyBv) -> CmpObs;
@@ -611,6 +613,16 @@ macro_rules! impl_fixed {
                     _ => Self::try_from(val as usize),
                 }
             }
+            fn from_slice(w: u8, vals: &[u128]) -> Result<Self, ConvertionError> {
+                match w {
+                    0 => Self::try_from(&vals.iter().map(|x| *x as u8).collect::<Vec<u8>>()[..]),
+                    1 => Self::try_from(&vals.iter().map(|x| *x as u16).collect::<Vec<u16>>()[..]),
+                    2 => Self::try_from(&vals.iter().map(|x| *x as u32).collect::<Vec<u32>>()[..]),
+                    3 => Self::try_from(&vals.iter().map(|x| *x as u64).collect::<Vec<u64>>()[..]),
+                    4 => Self::try_from(&vals.to_vec()[..]),
+                    _ => Self::try_from(&vals.iter().map(|x| *x as usize).collect::<Vec<usize>>()[..]),
+                }
+            }
             fn raw_roundtrip(&self) -> Option<Self> {
                 let (d, l) = self.clone().into_inner();
                 Some(<$T>::new(d, l))
@@ -692,6 +704,16 @@ impl Subj for Bvd {
             _ => Self::from(val as usize),
         })
     }
+    fn from_slice(w: u8, vals: &[u128]) -> Result<Self, ConvertionError> {
+        Ok(match w {
+            0 => Self::from(&vals.iter().map(|x| *x as u8).collect::<Vec<u8>>()[..]),
+            1 => Self::from(&vals.iter().map(|x| *x as u16).collect::<Vec<u16>>()[..]),
+            2 => Self::from(&vals.iter().map(|x| *x as u32).collect::<Vec<u32>>()[..]),
+            3 => Self::from(&vals.iter().map(|x| *x as u64).collect::<Vec<u64>>()[..]),
+            4 => Self::from(&vals.to_vec()[..]),
+            _ => Self::from(&vals.iter().map(|x| *x as usize).collect::<Vec<usize>>()[..]),
+        })
+    }
     fn raw_roundtrip(&self) -> Option<Self> {
         let (d, l) = self.clone().into_inner();
         Some(Bvd::new(d, l))
@@ -739,6 +761,16 @@ impl Subj for Bv {
             3 => Self::from(val as u64),
             4 => Self::from(val),
             _ => Self::from(val as usize),
+        })
+    }
+    fn from_slice(w: u8, vals: &[u128]) -> Result<Self, ConvertionError> {
+        Ok(match w {
+            0 => Self::from(&vals.iter().map(|x| *x as u8).collect::<Vec<u8>>()[..]),
+            1 => Self::from(&vals.iter().map(|x| *x as u16).collect::<Vec<u16>>()[..]),
+            2 => Self::from(&vals.iter().map(|x| *x as u32).collect::<Vec<u32>>()[..]),
+            3 => Self::from(&vals.iter().map(|x| *x as u64).collect::<Vec<u64>>()[..]),
+            4 => Self::from(&vals.to_vec()[..]),
+            _ => Self::from(&vals.iter().map(|x| *x as usize).collect::<Vec<usize>>()[..]),
         })
     }
     fn raw_roundtrip(&self) -> Option<Self> {
